@@ -19,10 +19,31 @@ type loopEnv struct {
 }
 
 func (f *Frame) loopContract(li *loopInfo) *LoopContract {
-	if f.contract == nil {
-		return nil
+	var own *LoopContract
+	if f.contract != nil {
+		own = f.contract.Loops[li.ord]
 	}
-	return f.contract.Loops[li.ord]
+	if f.parent == nil {
+		return own
+	}
+	// a loop of an inlined helper: the top-level function's contract may add invariants for it
+	top := f.top()
+	if !li.inlSet {
+		li.inlSet = true
+		li.inlSeq = top.inlLoops
+		top.inlLoops++
+	}
+	var extra *LoopContract
+	if top.contract != nil && top.contract.InlinedLoops != nil {
+		extra = top.contract.InlinedLoops[li.inlSeq]
+	}
+	switch {
+	case own == nil:
+		return extra
+	case extra == nil:
+		return own
+	}
+	return &LoopContract{Invariants: append(append([]Clause{}, own.Invariants...), extra.Invariants...)}
 }
 
 // invariants evaluates the loop's invariants (auto + contract) in the given state.
@@ -121,15 +142,45 @@ func (f *Frame) enterLoop(li *loopInfo, st *State, r *Term, edges []edge) *State
 	if mod.top {
 		f.havocTop(st)
 	} else {
-		f.havocComps(st, mod.comps)
-		f.assumeFrameSinceEntry(st, mod.comps)
+		// components reached only through callees that write nothing pre-existing keep everything
+		// that was allocated before the loop
+		before := copyHeap(st.heap)
+		beforeBase, beforeAlloc := st.base, st.alloc
+		// Components touched only through callees that write nothing pre-existing are not havoc'd
+		// at all: memory allocated during the iterations was unconstrained before the loop. The
+		// callee-owned ghost is the exception (its marking axioms range over all references).
+		all := map[string]Sort{}
+		for k, v := range mod.comps {
+			all[k] = v
+		}
+		var names []string
+		if s, ok := mod.viaFresh[coComp]; ok {
+			if _, direct := mod.comps[coComp]; !direct {
+				all[coComp] = s
+				names = append(names, coComp)
+			}
+		}
+		f.havocComps(st, all)
+		f.assumeFrameSinceEntry(st, all)
+		sort.Strings(names)
+		for _, k := range names {
+			b, ok := before[k]
+			if !ok {
+				b = f.ctx.constant(fmt.Sprintf("%s@%d", k, beforeBase), all[k])
+			}
+			f.ctx.assume(f.frameAxiom(k, b, st.heap[k], nil, beforeAlloc))
+		}
+		if co, ok := st.heap[coComp]; ok && f.top().trackOwn {
+			r := Atom("r!co", SInt)
+			f.ctx.assume(Forall([]*Term{r}, Implies(Ge(r, st.alloc), Not(Select(co, r))), []*Term{Select(co, r)}))
+		}
 	}
 	for a, paths := range mod.locals {
 		cur, ok := st.locals[a]
 		if !ok {
 			cur = f.zero(derefT(a.Type()))
 		}
-		st.locals[a] = f.havocPaths(cur, derefT(a.Type()), paths, a.Comment)
+		st.locals[a] = f.havocPaths(st, cur, derefT(a.Type()), paths, a.Comment)
 	}
 	for _, in := range h.Instrs {
 		ph, ok := in.(*ssa.Phi)
@@ -169,6 +220,9 @@ func (f *Frame) enterLoop(li *loopInfo, st *State, r *Term, edges []edge) *State
 		f.visited[rg] = vis
 		env.visited[rg] = vis
 	}
+	if lc := f.loopContract(li); lc != nil && lc.Wit != nil {
+		f.activeWit, f.activeWitEnv, f.activeWitLoop = lc, env, li
+	}
 	// 3. assume invariants
 	_, terms = f.invariants(li, st, env, true, fmt.Sprintf("loop%d", li.ord))
 	for _, t := range terms {
@@ -207,10 +261,12 @@ func (f *Frame) backEdge(li *loopInfo, from *ssa.BasicBlock, cond *Term, st *Sta
 }
 
 // havocPaths replaces the sub-values at the given field paths by fresh constants.
-func (f *Frame) havocPaths(cur *Term, t types.Type, paths [][]int, hint string) *Term {
+func (f *Frame) havocPaths(st *State, cur *Term, t types.Type, paths [][]int, hint string) *Term {
 	for _, p := range paths {
 		if len(p) == 0 {
-			return f.ctx.fresh(hint, cur.S)
+			nv := f.ctx.fresh(hint, cur.S)
+			f.assumeWf(st, nv, t)
+			return nv
 		}
 	}
 	// group by first field
@@ -229,7 +285,7 @@ func (f *Frame) havocPaths(cur *Term, t types.Type, paths [][]int, hint string) 
 	}
 	sort.Ints(keys)
 	for _, k := range keys {
-		fs[k] = f.havocPaths(fs[k], si.Fields[k].Type, byField[k], hint+"."+si.Fields[k].Name)
+		fs[k] = f.havocPaths(st, fs[k], si.Fields[k].Type, byField[k], hint+"."+si.Fields[k].Name)
 	}
 	return si.Mk(fs)
 }
@@ -240,6 +296,8 @@ type modSet struct {
 	top    bool
 	comps  map[string]Sort
 	locals map[*ssa.Alloc][][]int
+	viaFresh map[string]Sort // components touched only through callees that write nothing pre-existing
+	inFresh  bool
 }
 
 func (f *Frame) loopMods(li *loopInfo) *modSet {
@@ -284,7 +342,16 @@ func rootOf(v ssa.Value) (root ssa.Value, path []int, indexed bool, first ssa.Va
 	}
 }
 
-func (f *Frame) addComp(ms *modSet, name string, s Sort) { ms.comps[name] = s }
+func (f *Frame) addComp(ms *modSet, name string, s Sort) {
+	if ms.inFresh {
+		if ms.viaFresh == nil {
+			ms.viaFresh = map[string]Sort{}
+		}
+		ms.viaFresh[name] = s
+		return
+	}
+	ms.comps[name] = s
+}
 
 func (f *Frame) addStoreMods(addr ssa.Value, ms *modSet) {
 	root, path, indexed, first := rootOf(addr)
@@ -435,12 +502,43 @@ func (f *Frame) callMods(cc *ssa.CallCommon, ms *modSet) {
 			return
 		}
 	}
+	if f.top().trackOwn {
+		if ms.viaFresh == nil {
+			ms.viaFresh = map[string]Sort{}
+		}
+		ms.viaFresh[coComp] = ArrS(SInt, SBool)
+	}
 	sub := f.ctx.eng.effectsOf(callee, f)
+	ct := f.ctx.eng.contracts.Funcs[funcKey(callee)]
+	freshOnly := ct != nil && !ct.Inline && (ct.Fresh || (ct.ModifiesSet && modifiesNothing(ct)))
 	if sub.top {
-		ms.top = true
-		return
+		if !freshOnly {
+			ms.top = true
+			return
+		}
+		// a callee that writes nothing pre-existing: whatever it touches, older memory is kept
+		sub = &effects{comps: map[string]Sort{}}
+		for k, v := range f.ctx.eng.compSeen {
+			sub.comps[k] = v
+		}
 	}
 	for k, v := range sub.comps {
-		ms.comps[k] = v
+		if freshOnly {
+			if ms.viaFresh == nil {
+				ms.viaFresh = map[string]Sort{}
+			}
+			ms.viaFresh[k] = v
+		} else {
+			ms.comps[k] = v
+		}
 	}
+}
+
+func modifiesNothing(ct *Contract) bool {
+	for _, m := range ct.Modifies {
+		if strings.TrimSpace(m) != "" && strings.TrimSpace(m) != "nothing" {
+			return false
+		}
+	}
+	return true
 }
